@@ -112,14 +112,25 @@ def quad_bound(spec, nq):
     return 30.0 * math.exp(-2.0 * math.pi ** 2 * nq / (math.log(max(float(spec["kappa"]), 1.0)) + 6.0))
 
 
+def minres_reaches_tolerance(spec):
+    """spectra on which the inner MINRES reaches a tight tolerance within its iteration cap n + 3 in float64 (measured on
+    the unchanged tree: equispaced spectra, n <= 20, kappa <= 1e3, operators whose spectrum IS the family: final error
+    <= 2e-12); geometric spectra lose orthogonality (known finding C11-minres-iteration-cap), Kronecker spectra are products"""
+    return spec["fam"] == "uniform" and spec["n"] <= 20 and float(spec["kappa"]) <= 1e3 and spec["op"] != "kron"
+
+
 def ciq_bounds(spec, tol, nq=15):
     """(bound on the root / inverse errors, bound on the shifted-equation residuals, bound on the scalar rule).
     Support only: MINRES convergence and quadrature accuracy are not proved.  Measured on the unchanged tree
-    (design_notes/C11.md): root <= 4e-5 at the default minres_tolerance 1e-4, <= 7e-8 at 1e-10; rule <= 2e-6
-    at the default 15 nodes."""
+    (design_notes/C11.md): root <= 4e-5 at the default minres_tolerance 1e-4, <= 5e-6 at 1e-10 in general and <= 2e-12
+    where MINRES reaches the tolerance (then the bound is the accuracy of the rule itself, floor 1e-10: 60 x the
+    measured error); rule <= 2e-6 at the default 15 nodes."""
     tight = tol <= 1e-8
     qb = quad_bound(spec, nq)
-    return max(1e-5 if tight else 1e-3, qb), (1e-5 if tight else 2e-3), max(1e-5, qb)
+    floor = 1e-3
+    if tight:
+        floor = 1e-10 if (tol <= 1e-9 and minres_reaches_tolerance(spec)) else 1e-5
+    return max(floor, qb), (1e-5 if tight else 2e-3), max(1e-5, qb)
 
 
 def ciq_direct_pred(spec, K, rhs, out, tol, nq=15):
